@@ -53,7 +53,9 @@ LAYOUTS = {
     ),
     "glob": dict(
         pattern="YYYY.MM.INC0", start="2021.6.0", date=dt.date(2021, 6, 1),
-        files={"pkg/*.txt": ["v={version}"]},
+        # the config file itself is also reached by a glob entry, with an anchored pattern for a second version line in it
+        files={"pkg/*.txt": ["v={version}"], "*.toml": ['^release = "{version}"']},
+        cfg_head='release = "2021.6.0"\n\n', implicit_cfg_entry=True,
         content={"pkg/a.txt": "v=2021.6.0\n", "pkg/b.txt": "x\r\nv=2021.6.0\r\n"},
         u=[], u2=["--pin-date"], u3=["--date", "2030-01-01"], fail=["--set-version", "2000.1.0"],
     ),
@@ -88,8 +90,8 @@ def explore(tier, seed):
 
 
 def config_text(L):
-    out = ["[bumpver]", f'current_version = "{L["start"]}"', f'version_pattern = "{L["pattern"]}"', "commit = true", "tag = true", "push = false",
-           "", "[bumpver.file_patterns]", '"bumpver.toml" = [\'current_version = "{version}"\']']
+    out = [L.get("cfg_head", "") + "[bumpver]", f'current_version = "{L["start"]}"', f'version_pattern = "{L["pattern"]}"', "commit = true", "tag = true", "push = false",
+           "", "[bumpver.file_patterns]"] + ([] if L.get("implicit_cfg_entry") else ['"bumpver.toml" = [\'current_version = "{version}"\']'])
     for path, pats in L["files"].items():
         out.append(f'"{path}" = [' + ", ".join("'" + p + "'" for p in pats) + "]")
     return "\n".join(out) + "\n"
@@ -137,6 +139,7 @@ def occurrences(layout):
     else:
         for f in ("pkg/a.txt", "pkg/b.txt"):
             out.append((f, "version", re.search(r"v=([^\r\n]*)", tree[f].decode()).group(1)))
+        out.append(("bumpver.toml", "version", re.search(r'^release = "(.*)"', tree["bumpver.toml"].decode(), flags=re.M).group(1)))
     cfg = re.search(r'current_version = "(.*)"', tree["bumpver.toml"].decode()).group(1)
     out.append(("bumpver.toml", "version", cfg))
     return out
